@@ -391,6 +391,9 @@ def run(pm, ctx):
                      'aliases or annotation types (shared with C09-R4)', only=lambda o:
                      'get_imported_namespaces' in o['instance'] or 'ApiNamespace' in o['where'])
 
+    ctx.import_rules(pm, 'C02', {'C02-R12'}, 'C16-R6',
+                     'the unwrap helpers of the IR peel exactly the wrappers their names say '
+                     '(shared with C02-R12)')
     from ..effects import run_decisions
     from ..ownership import OWN
     run_decisions(pm, ctx, 'C16-RD', OWN['C16'])
